@@ -645,6 +645,34 @@ class Canon:
                     if s is None:
                         i += 1
                         continue
+            # T3b: `v = K; if a: v = x elif b: v = y` -> the chain gets
+            # `else: v = K` (K constant, v not read inside the chain)
+            if (isinstance(s, ast.Assign) and len(s.targets) == 1
+                    and isinstance(s.targets[0], ast.Name)
+                    and isinstance(s.value, ast.Constant)
+                    and isinstance(nxt, ast.If)):
+                v = s.targets[0].id
+                last = nxt
+                ok = v not in self.usage.banned
+                while ok:
+                    b = self._tail_binding(last.body[-1]) if last.body \
+                        else None
+                    if not b or set(b) != {v}:
+                        ok = False
+                        break
+                    if len(last.orelse) == 1 and isinstance(
+                            last.orelse[0], ast.If):
+                        last = last.orelse[0]
+                        continue
+                    break
+                if ok and not last.orelse and not any(
+                        isinstance(n, ast.Name) and n.id == v and
+                        isinstance(n.ctx, ast.Load)
+                        for n in ast.walk(nxt)):
+                    last.orelse = [s]
+                    self.did("T3.init-to-else")
+                    i += 1
+                    continue
             # T3
             if (isinstance(s, ast.If) and s.orelse
                     and isinstance(nxt, ast.Return) and nxt.value is not None):
@@ -1247,8 +1275,47 @@ class _IterConst(ast.NodeTransformer):
             self.canon.did("T15.class-constant")
         return node
 
+    def _expand(self, comp):
+        """[E for x in <literal of constants>] -> list of E[x := c]."""
+        if len(comp.generators) != 1:
+            return None
+        g = comp.generators[0]
+        it = self._literal(g.iter) or g.iter
+        if not (isinstance(it, (ast.Tuple, ast.List)) and it.elts and
+                not g.ifs and not g.is_async and len(it.elts) <= 8 and all(
+                    isinstance(e, ast.Constant) for e in it.elts) and
+                isinstance(g.target, ast.Name)):
+            return None
+        return [_ConstSubst({g.target.id: e}).visit(copy.deepcopy(comp.elt))
+                for e in it.elts]
+
+    def visit_ListComp(self, node):
+        self.generic_visit(node)
+        vals = self._expand(node)
+        if vals is None:
+            return node
+        self.canon.did("T15.comprehension")
+        return ast.copy_location(ast.List(elts=vals, ctx=ast.Load()), node)
+
     def visit_Call(self, node):
         self.generic_visit(node)
+        if isinstance(node.func, ast.Name) and node.func.id in (
+                "tuple", "list") and len(node.args) == 1 and \
+                not node.keywords and isinstance(
+                    node.args[0], (ast.GeneratorExp, ast.ListComp)):
+            vals = self._expand(node.args[0])
+            if vals is not None:
+                self.canon.did("T15.comprehension")
+                cls_ = ast.Tuple if node.func.id == "tuple" else ast.List
+                return ast.copy_location(cls_(elts=vals, ctx=ast.Load()),
+                                         node)
+        if isinstance(node.func, ast.Name) and node.func.id in (
+                "tuple", "list") and len(node.args) == 1 and \
+                not node.keywords and isinstance(node.args[0], ast.List):
+            # tuple([a, b]) after the comprehension was expanded
+            cls_ = ast.Tuple if node.func.id == "tuple" else ast.List
+            return ast.copy_location(cls_(elts=node.args[0].elts,
+                                          ctx=ast.Load()), node)
         if isinstance(node.func, ast.Name) and node.func.id in (
                 "any", "all") and len(node.args) == 1 and \
                 not node.keywords and isinstance(
